@@ -195,7 +195,13 @@ def check_loop_case(ctx, case, ops=None, tag_prefix=""):
     if ops is not None:
         factory = lambda sim: detsim.scripted(ops, finish=case.get("finish", True))
     else:
-        factory = lambda sim: CS.random_chooser(rng, case["personality"], 0.0, p_split=case.get("p_split", 0.0))
+        def factory(sim):
+            ch = CS.random_chooser(rng, case["personality"], 0.0, p_split=case.get("p_split", 0.0))
+            if case.get("laggards"):
+                # older instances of the looped components that are off the critical path of the loop condition are
+                # kept running while newer iterations are instantiated, run and end
+                ch = CS.laggard_chooser(ch, rng, case["laggards"], case.get("hold", 30))
+            return ch
     try:
         res = CS.run_loop(run_case, factory)
     except Exception as exc:  # noqa: the generated package was rejected / could not be built
@@ -214,8 +220,19 @@ def check_loop_case(ctx, case, ops=None, tag_prefix=""):
     tags += ["loop:op:" + k for k in sorted(kinds)]
     if res.inflight_scheds:
         tags.append("loop:sched-while-a-finished-notification-is-being-handled")
+    off = [n for n in CS.loop_names(lp) if n not in CS.loop_upstream(lp, lp["cond"])]
+    if off:
+        tags.append("loop:has-looped-component-off-the-critical-path-of-the-condition")
+        tags += ["loop:consumer-of-off-path-component:" + c["method"] for c in lp["consumers"] if c["of"] in off]
+    if lp.get("side"):
+        tags.append("loop:three-kinds-of-looped-component" if lp["two"] else "loop:side-component")
+    if res.outlived:
+        tags.append("loop:older-instance-still-running-when-the-next-iteration-was-over")
+    if res.waited_for_outlived:
+        tags.append("loop:consumer-launched-after-waiting-for-an-older-instance-that-outlived-the-next-iteration")
     ctx.case({"loop": lp, "scripts": res.scripts, "ops": res.ops},
-             nontrivial=(res.iterations >= 2 and res.inflight_scheds >= 1 and len(res.launches) >= 3), tags=tags)
+             nontrivial=(res.iterations >= 2 and len(res.launches) >= 3
+                         and (res.inflight_scheds >= 1 or bool(res.outlived))), tags=tags)
     ctx.tag("launches-checked", len(res.launches))
     for what, ref, prod, at in res.launch_bad:
         ctx.fail(what, full, {"component": ref, "producer": prod, "after_ops": at, "refs": res.refs,
@@ -224,6 +241,28 @@ def check_loop_case(ctx, case, ops=None, tag_prefix=""):
         ctx.tag("op-budget-exhausted")
     ctx.compare("no exception escapes a callback run on the controller pool", full, {"errors": []},
                 {"errors": res.pool_errors})
+    # correspondence with St4sd.CtrlLoop (runs in which every task succeeds: the model has no failures) -------------
+    if any(res.scripts.get(r) for r in res.refs) or any(op[0] == "kill" for op in res.ops):
+        ctx.tag("loop:not-compared-with-CtrlLoop(failing-tasks)")
+        return res
+    triples = CS.loop_model_requests(lp, res)
+    outs = ctx.model([req for _c, req, _e in triples]) if triples else None
+    if outs is not None:
+        for (cref, _req, expected), m in zip(triples, outs):
+            got = m.get("snaps") if isinstance(m, dict) else None
+            k = None if got == expected else next(
+                (i for i in range(len(expected)) if got is None or i >= len(got) or got[i] != expected[i]), len(expected))
+            ctx.tag("loop:consumers-compared-with-CtrlLoop")
+            if k is None:
+                ctx.compare("DoWhile consumer: (iteration, phases of all instances, launched) after every op == "
+                            "CtrlLoop.step", full, {"agree": True}, {"agree": True})
+            else:
+                ctx.compare("DoWhile consumer: (iteration, phases of all instances, launched) after every op == "
+                            "CtrlLoop.step", full,
+                            {"consumer": cref, "at": k, "op": res.ops[k] if k < len(res.ops) else None,
+                             "snap": got[k] if got is not None and k < len(got) else m},
+                            {"consumer": cref, "at": k, "op": res.ops[k] if k < len(res.ops) else None,
+                             "snap": expected[k] if k < len(expected) else None, "refs": res.refs})
     return res
 
 
@@ -312,7 +351,7 @@ def rerun_later(ctx, kept):
                       "later_run": {"results": again.results, "final": again.final}})
 
 
-def run_n(ctx, n, n_loops=0, n_again=12):
+def run_n(ctx, n, n_loops=0, n_again=12, n_offpath=0):
     rng = ctx.rng
     for case in corpus_cases():
         if "loop" in case:
@@ -328,15 +367,17 @@ def run_n(ctx, n, n_loops=0, n_again=12):
             kept.append((case, res))
     for i in range(n_loops):
         check_loop_case(ctx, CS.gen_loop_case(rng))
+    for i in range(n_offpath):
+        check_loop_case(ctx, CS.gen_loop_case_offpath(rng))
     rerun_later(ctx, kept)
 
 
 def run(ctx):
     setup(ctx)
     if ctx.tier == "quick":
-        run_n(ctx, 300, 80, 12)
+        run_n(ctx, 300, 70, 12, 50)
     else:
-        run_n(ctx, 2700, 700, 60)
+        run_n(ctx, 2700, 600, 60, 450)
 
 
 def replay(ctx, doc):
